@@ -5,7 +5,7 @@ import subprocess, os, sys, shutil, tempfile, re, concurrent.futures
 os.environ.setdefault("VERIF_CACHE", "/tmp/hannibal-vcache")  # memoize verifier runs by generated-file hash (corpus tools only)
 ROOT = os.path.dirname(os.path.dirname(os.path.abspath(__file__)))
 root = sys.argv[1]
-ids = sys.argv[2:] or sorted(d for d in os.listdir(root) if re.match(r"C\d\d$", d))
+ids = sys.argv[2:] or sorted(d for d in os.listdir(root) if re.match(r"[CF]\d\d$", d))
 jobs = []
 for i in ids:
     od = os.path.join(root, i, "out")
@@ -15,6 +15,13 @@ for i in ids:
         if os.path.exists(p): jobs.append((i, c, p))
 def run(job):
     i, c, p = job
+    # a round organised by source file names the broken property per change (property.txt)
+    pf = os.path.join(os.path.dirname(p), "property.txt")
+    g = i
+    if os.path.exists(pf):
+        m = re.search(r"C\d\d", open(pf).read())
+        if m: i = m.group(0)
+    c = c if g == i else "%s/%s" % (g, c)
     td = tempfile.mkdtemp(prefix="hannibal-round-")
     try:
         rp = os.path.join(td, "r"); os.makedirs(rp)
